@@ -37,13 +37,13 @@ def run(chk):
     chk.trust('z3 (linear integer arithmetic)')
     chk.assume('Python ints are mathematical integers; sizes fit the u32/u64 fields they are written into')
     mod = load()
-    pix_write(chk, mod)
-    dnd_placeholder(chk, mod)
-    bat(chk, mod)
-    create(chk, mod)
-    header_and_byteorder(chk, mod)
-    canonical_order(chk, mod)
-    strings(chk, mod)
+    chk.section('pix_write', pix_write, mod)
+    chk.section('dnd_placeholder', dnd_placeholder, mod)
+    chk.section('bat', bat, mod)
+    chk.section('create', create, mod)
+    chk.section('header_and_byteorder', header_and_byteorder, mod)
+    chk.section('canonical_order', canonical_order, mod)
+    chk.section('strings', strings, mod)
     bounded_files(chk)
 
 
@@ -52,7 +52,7 @@ def pix_objects(mod, units=None):
     N = SymInt(z3.Int('n_pixels'))
     from contracts.sqw_real import ROWS, ROW_UNITS
     src_units = units or ('1/angstrom', '1/angstrom', '1/angstrom', 'meV', None, None, None, 'count', 'count**2')
-    rows = [M.SymRow(i, N, u, ROWS[i]) for i, u in enumerate(src_units)]
+    rows = [M.SymRow(i, N, u, ROWS[i], declared=ROW_UNITS[i]) for i, u in enumerate(src_units)]
     return mod._PixWrap(row_data=rows, row_units=ROW_UNITS), N
 
 
